@@ -912,7 +912,8 @@ func (m *Mon) C05(n *node.Node, l *node.Leg) {
 				bad = "nonce counter of a token not named in the input"
 			}
 		case strings.HasPrefix(ch.Key, node.KeyPrefix):
-			fresh := createOf != "" && ch.Addr == string(c.Caller) && strings.HasPrefix(ch.Key, createOf) && len(ch.Key)-len(createOf) >= 1 && len(ch.Key)-len(createOf) <= 8
+			// a create names its token; the nonce it returns names the entry
+			fresh := createOf != "" && ch.Addr == string(c.Caller) && len(l.Out.ReturnData) >= 1 && ch.Key == node.StorageKey(a[0], u64(l.Out.ReturnData[0]))
 			if !named[ch.Key] && !fresh {
 				bad = "token entry not named in the input"
 			}
